@@ -771,6 +771,7 @@ pub fn check<P: Property>(p: &P, opt: &Options) -> i32 {
             "undetermined_skipped": undetermined,
             "companion": companion,
             "counters": other,
+            "measured_maxima": acc.stats.maxima,
             "components": p.components(),
             "runs_with_violation": acc.violating_total,
             "violation_kinds": acc.viol_kinds,
@@ -812,6 +813,11 @@ pub fn check<P: Property>(p: &P, opt: &Options) -> i32 {
             for v in &found.violations {
                 out(&format!("  debug run={} {}@{} vectors={:?} :: {}", index, v.class, v.operation, v.vectors, v.message));
             }
+        }
+    }
+    if std::env::var("VERIF_DEBUG").is_ok() {
+        for (k, v) in &acc.stats.maxima {
+            out(&format!("  max {} = {:.4e}", k, v));
         }
     }
     for (k, n) in &acc.viol_kinds {
